@@ -231,8 +231,25 @@ def rule_once(chk):
                 flag = unparse(inner_e)
                 # is the test + set inside one `with <lock>` region?
                 enters = [w for w in cfg.live if w.kind == "with_enter" and cfg.precedes([w], [t])[0]]
-                if enters:
-                    raise AnalysisError("preserve_context: flag-under-lock guard not modelled precisely")
+                locked_ok = False
+                for w_ in enters:
+                    ce = w_.info["item"].context_expr
+                    if not isinstance(ce, ast.Name):
+                        continue
+                    vals = assigned_values(pc, ce.id)
+                    once = len(vals) == 1 and isinstance(vals[0], ast.Call) and any(
+                        tt.kind == "ext" and tt.ref in ("threading.Lock", "threading.RLock") for tt in ctx.cg.typer.resolve_call(pc, vals[0]))
+                    exits = [x for x in cfg.live if x.kind == "with_exit" and x.info["item"] is w_.info["item"]]
+                    sets = [x for x in cfg.live if isinstance(x.ast, ast.Assign) and unparse(x.ast.targets[0]) == flag
+                            and isinstance(x.ast.value, ast.Constant) and bool(x.ast.value.value) != neg]
+                    arm = [s_ for s_, l in t.succ if l == (("true" if neg else "false"))]
+                    # the flag is set on the success arm before the lock is released
+                    if once and exits and sets and cfg.must_pass(arm, exits, sets)[0] and cfg.must_pass(arm, [n], sets)[0]:
+                        locked_ok = True
+                        why = "flag %s tested and set inside one `with %s:` region (lock created once per preserve_context call)" % (flag, ce.id)
+                if locked_ok:
+                    ok = True
+                    continue
                 why = ("single use is enforced by testing the flag `%s` and setting it in a separate statement with no lock held: two threads can both pass the test "
                        "(check-then-set), so f runs twice" % flag)
     chk.req(ok, "C06.once", "preserve_context:single-use-is-atomic", where, good=why, fail=why, sites=len(cfg.live))
